@@ -47,6 +47,16 @@ class CrudProfile(StoreProfile):
         twin = "/".join(segs[:-1] + [rng.choice(exts)]) if exts else None
         if twin and m.natural_type(twin) == t:
             alpha["F2"] = twin
+        # same fields, an extension of ANOTHER file type (scene 'ma' vs movie 'mp4'): same file stem, but another
+        # type, usually another directory: their data must stay independent
+        for t2 in ft:
+            if t2 != t and m.by_name[t2].keys == m.by_name[t].keys:
+                e2 = [e for e in (vocab.values(t2, m.by_name[t2].keys[-1]) or [])]
+                if e2:
+                    cand = "/".join(segs[:-1] + [rng.choice(e2)])
+                    if m.natural_type(cand) == t2:
+                        alpha["F4"] = cand
+                        break
         # sibling in the same directory with another value for the second-to-last key
         k2 = m.by_name[t].keys[-2]
         alts = [v for v in (vocab.values(t, k2) or []) if v != segs[-2]]
